@@ -90,7 +90,7 @@ def replay(col, item):
     work = tempfile.mkdtemp(prefix="verif-c12-")
     owned_tmp = os.path.join(work, "tmp")
     os.mkdir(owned_tmp)
-    base = {"plain": "file", "dots": "a.b.c.nc", "fmtarg": "plain.dat"}[naming]
+    base = {"plain": "file", "dots": "a.b.c.nc", "fmtarg": "plain.dat", "suffixchars": {"zip": "map", "gz": "log.z", "bz2": "tab2", "xz": "box"}[fmt]}[naming]
     known = case["known"]
     use_fmt_arg = naming == "fmtarg" and case["mode"] == "compress" and known
     suffix = ("." + fmt) if known and not use_fmt_arg else ("" if use_fmt_arg else ".dat")
@@ -262,7 +262,7 @@ def roundtrip(col, item):
     data = CONTENTS[cname]
     work = tempfile.mkdtemp(prefix="verif-c12-")
     try:
-        base = {"plain": "file", "dots": "a.b.c.nc"}[naming]
+        base = {"plain": "file", "dots": "a.b.c.nc", "suffixchars": {"zip": "temp.p", "gz": "log.gz", "bz2": "b2", "xz": "x.x"}[fmt]}[naming]
         target = os.path.join(work, base + "." + fmt)
         with U.compress(target, tmpdir=work) as name:
             with open(name, "wb") as f:
@@ -305,12 +305,12 @@ def run(ctx):
     for c in cases:
         for fmt in FORMATS:
             for cname in CONTENTS:
-                for naming in ("plain", "dots", "fmtarg"):
+                for naming in ("plain", "dots", "fmtarg", "suffixchars"):
                     if naming == "fmtarg" and not (c["mode"] == "compress" and c["known"]):
                         continue
                     seq += 1
                     items.append((c, fmt, cname, naming, seq))
     pmap(ctx, replay, items)
-    pmap(ctx, roundtrip, [(f, c, n) for f in FORMATS for c in CONTENTS for n in ("plain", "dots")])
+    pmap(ctx, roundtrip, [(f, c, n) for f in FORMATS for c in CONTENTS for n in ("plain", "dots", "suffixchars")])
     ctx.traces += len(items)
     ctx.sample({"terminal_state": cases[3], "replayed_as": {"format": "gz", "content": "chunks", "naming": "dots"}})
